@@ -16,7 +16,7 @@ RULE = ("one evaluation = one operation sequence over the store API run in lock-
 ASSUMPTIONS = ["SQLite's own atomic commit and the filesystem are trusted; only process death (os._exit) is modelled",
                "sessions use device id 1 and numeric recipient ids, as every caller in the library does",
                "one-time/signed prekeys are stored under fresh ids only (the library never overwrites an id)"]
-REQUIRED = ["profiles_cases", "profiles_ok", "profiles_ops", "reopen_right_after_again", "busy_start_cases", "busy_start_ok", "sequences", "reopen_checks", "replace_ops", "crash_children", "crash_died_inside", "crash_outcome:old",
+REQUIRED = ["profile_switch_cases", "profile_switch_ok", "profiles_cases", "profiles_ok", "profiles_ops", "reopen_right_after_again", "busy_start_cases", "busy_start_ok", "sequences", "reopen_checks", "replace_ops", "crash_children", "crash_died_inside", "crash_outcome:old",
             "crash_outcome:new", "conversation_restarts", "crash_kind:sql", "crash_kind:commit", "crash_kind:line",
             "manager_sequences", "manager_kill_snapshots", "manager_prekeys_generated", "crash_cases_with_in_process_history"]
 TIMEOUT = {"quick": 900, "thorough": 7200}
@@ -752,6 +752,74 @@ def busy_start_case(acc, seed, tag, mat):
         shutil.rmtree(os.path.dirname(path), ignore_errors=True)
 
 
+def profile_switch_case(acc, seed, tag, mat):
+    """One stack serves two accounts one after the other (connect as A, disconnect, setProfile(B), connect): whatever the
+    encryption layers store after the switch belongs to B's key store file, and A's file stays as it was."""
+    from vf import stackkit, tstack, treeeq
+    from yowsup.layers import YowLayerEvent
+    from yowsup.layers.network import YowNetworkLayer
+    from yowsup.axolotl.manager import AxolotlManager
+    from yowsup.common.tools import StorageTools
+    r = gen.rng(seed, ID, tag)
+    w = {"kind": "profile-switch", "tag": tag}
+    acc.count("profile_switch_cases")
+    acc.case(["psw", tag], nontrivial=True)
+    old_count = AxolotlManager.COUNT_GEN_PREKEYS
+    AxolotlManager.COUNT_GEN_PREKEYS = 4
+    names = ["c13sw_%s_%d_a" % (tag.replace("/", "_"), os.getpid()), "c13sw_%s_%d_b" % (tag.replace("/", "_"), os.getpid())]
+    try:
+        pa = tstack.make_profile(names[0], phone="4911" + gen.s_from(r, gen.DIGITS, 7))
+        pb = tstack.make_profile(names[1], phone="4922" + gen.s_from(r, gen.DIGITS, 7))
+        kit = stackkit.Kit(dict.fromkeys(stackkit.FLAGS, True), True, profile=pa)
+        path = {n_: os.path.join(StorageTools.getStorageForProfile(n_), "axolotl.db") for n_ in names}
+
+        def ask_keys(nid):
+            kit.clear()
+            kit.inject(("notification", {"from": "s.whatsapp.net", "type": "encrypt", "id": nid, "t": "1600000000"}, [("count", {"value": "0"}, [], None)], None))
+            ups = [treeeq.to_tuple(n) for n in kit.bottom.sent if n.tag == "iq" and n["xmlns"] == "encrypt" and n["type"] == "set"]
+            return ups[-1] if ups else None
+
+        def identity_of(up):
+            return [c for c in up[2] if c[0] == "identity"][0][3]
+
+        def file_state(n_):
+            s2 = open_store(path[n_])
+            try:
+                return (s2.getIdentityKeyPair().getPublicKey().serialize()[1:], sorted(rec.getId() for rec in s2.loadPreKeys()))
+            finally:
+                close_store(s2)
+        up_a = ask_keys("nkA1")
+        if up_a is None:
+            acc.inconc("%s: no key upload as account A" % tag)
+            return
+        a_before = file_state(names[0])
+        # the connection ends, the application switches the stack to the other account, and connects again
+        kit.bottom.emitEvent(YowLayerEvent(YowNetworkLayer.EVENT_STATE_DISCONNECTED, reason="x", detached=False))
+        kit.stack.setProfile(pb)
+        kit.bottom.emitEvent(YowLayerEvent(YowNetworkLayer.EVENT_STATE_CONNECTED))
+        up_b = ask_keys("nkB1")
+        if up_b is None:
+            acc.violation("profile-switch:no-upload", "after the switch to account B a key request led to no upload", w)
+            return
+        b_after = file_state(names[1])
+        a_after = file_state(names[0])
+        if identity_of(up_b) != b_after[0]:
+            acc.violation("profile-switch:wrong-identity", "after setProfile(B) the stack offers keys under %s identity (B's key store file holds another one)"
+                          % ("account A's" if identity_of(up_b) == a_before[0] else "a foreign"), w)
+            return
+        if a_after != a_before:
+            acc.violation("profile-switch:first-store-written", "after the switch to account B, account A's key store file changed (prekeys %d -> %d)" % (len(a_before[1]), len(a_after[1])), w)
+            return
+        acc.count("profile_switch_ok")
+    except Exception as e:  # noqa
+        import traceback
+        acc.violation("profile-switch:raises:%s" % type(e).__name__, "switching the stack's profile raised %r (%s)" % (e, traceback.format_exc()[-300:]), w)
+    finally:
+        AxolotlManager.COUNT_GEN_PREKEYS = old_count
+        for n_ in names:
+            shutil.rmtree(StorageTools.getStorageForProfile(n_), ignore_errors=True)
+
+
 def profiles_case(acc, seed, tag, mat):
     """Two or three profiles of one process, some of them for the same phone number (a main and a backup installation, say): each
     profile's key store is its own file. Operations go to each through YowProfile(name).axolotl_manager; afterwards every
@@ -933,6 +1001,8 @@ def run(spec, acc):
     elif spec["kind"] == "profiles":
         for i in range(spec["n"]):
             profiles_case(acc, seed, "prof/%d/%d" % (sh, i), mat)
+            if i % 3 == 0:
+                profile_switch_case(acc, seed, "psw/%d/%d" % (sh, i), mat)
         acc.sample({"profiles": "2-3 profiles in one process, two of them for the same phone number; each key store file is read on its own afterwards"})
     elif spec["kind"] == "busy-start":
         for i in range(spec["n"]):
@@ -964,6 +1034,8 @@ def replay(spec, acc):
         busy_start_case(acc, seed, tag, mat)
     elif w["kind"] == "profiles":
         profiles_case(acc, seed, tag, mat)
+    elif w["kind"] == "profile-switch":
+        profile_switch_case(acc, seed, tag, mat)
     elif w["kind"] == "manager":
         manager_case(acc, seed, tag, len(w.get("ops", [])) or 5, mat)
     else:
